@@ -152,6 +152,52 @@ def c10_pipeline(run):
     return pipeline(run, "C10")
 
 
+def c10_documents(run):
+    """Document-level parse() on boolean / odd but metaschema-valid documents; integers beyond CPython's str-conversion limit."""
+    from statham.schema.parser import parse, parse_element
+    from statham.schema.exceptions import SchemaParseError
+    acc = Acc(run, "C10-documents", "parse() on boolean and degenerate documents; deep nesting within the recursion budget; integers with more than 4300 digits")
+    w = quiet()
+    try:
+        deep = {}
+        cur = deep
+        for _ in range(150):
+            cur["items"] = {}
+            cur = cur["items"]
+        for doc in [True, False, {}, {"definitions": {"a": True, "b": False}}, {"definitions": {}}, deep,
+                    {"type": "object", "title": "T", "definitions": {"x": {"type": "string"}}}]:
+            key = jkey(doc)[:120]
+            acc.case(key)
+            try:
+                parse(copy.deepcopy(doc))
+            except SchemaParseError:
+                pass
+            except Exception as ex:
+                acc.fail(key, f"parse() raised {type(ex).__name__}: {ex}")
+        big = 10 ** 5000
+        for S in [{"maximum": 1}, {"type": "integer", "minimum": 0}, {"const": 1}, {"enum": [1]}, {"type": "string"}, {"multipleOf": 3}, {"type": "number"}]:
+            for label, v in (("10**5000", big), ("-10**5000", -big), ("[10**5000]", [big]), ("{'a': 10**5000}", {"a": big})):
+                key = f"{jkey(S)} <- {label}"
+                acc.case(key)
+                E = parse_element(copy.deepcopy(S))
+                kind, r = outcome(E, v)
+                if kind == "error":
+                    acc.fail(key, f"{type(r).__name__} escaped: {str(r)[:120]}", extra={"tags": ["D30-shape"] if isinstance(r, ValueError) and "4300" in str(r) else []})
+        nested = 1
+        for _ in range(200):
+            nested = [nested]
+        for S in [{}, {"items": {}}, {"uniqueItems": True}, {"const": [1]}, {"enum": [[1]]}]:
+            key = f"{jkey(S)} <- 200-deep nested list"
+            acc.case(key)
+            E = parse_element(copy.deepcopy(S))
+            kind, r = outcome(E, nested)
+            if kind == "error":
+                acc.fail(key, f"{type(r).__name__} escaped: {str(r)[:120]}")
+    finally:
+        w.__exit__(None, None, None)
+    return acc.result()
+
+
 # ------------------------------------------------------------------ element pool x values helpers
 def element_cases(level=2):
     for i, mk in enumerate(gen.elements(level)):
